@@ -163,7 +163,7 @@ func c19(w *core.World, r *core.Report) {
 		if !scope[f] || f.Pkg == nil {
 			return false
 		}
-		p := f.Pkg.Pkg.Path()
+		p := core.PkgPath(f)
 		return strings.HasPrefix(p, core.Module+"/pkg/datastore") && !strings.Contains(p, "/target") || strings.HasPrefix(p, core.Module+"/pkg/server") || strings.HasPrefix(p, core.Module+"/pkg/cache")
 	}
 
